@@ -197,10 +197,35 @@ Fixpoint hadd (m : hmol) (ts : list nat) (ws : list wit) : option hmol :=
       end
   end.
 
+(* ------------------------------------------------------------------ sessions: several calls on the SAME object
+   The routine is called, the caller edits the object in place (element, formal charge, spin, hint, atom type, bond
+   type / order, coordinates, atoms and bonds deleted or added -- all of it the CALLER's doing, so an edit is simply
+   "the molecule is now this"), and the routine is called again; or it is first called on a few atoms and then on
+   the whole molecule.  The model has no state besides the molecule: every call is `hadd` on the molecule as it is
+   at that moment.  run_session returns, for every call, (molecule before, targets, molecule after). *)
+Definition targets_of (ts : option (list nat)) (m : hmol) : list nat :=
+  match ts with Some l => l | None => default_targets (hm_atoms m) end.
+
+Inductive sstep :=
+| SCall (targets : option (list nat)) (ws : list wit)       (* add_implicit_hydrogens on these targets *)
+| SEdit (m : hmol).                                          (* the caller's edits left this molecule *)
+
+Fixpoint run_session (m : hmol) (steps : list sstep) : option (list (hmol * list nat * hmol)) :=
+  match steps with
+  | [] => Some []
+  | SEdit m' :: r => run_session m' r
+  | SCall ts ws :: r =>
+      match hadd m (targets_of ts m) ws with
+      | None => None
+      | Some m' => match run_session m' r with Some tr => Some ((m, targets_of ts m, m') :: tr) | None => None end
+      end
+  end.
+
 End Geometry.
 
 Arguments wit F : clear implicits.
 Arguments hmol F : clear implicits.
+Arguments sstep F : clear implicits.
 
 (* ================================================================== correspondence (Q instance) *)
 Local Open Scope Q_scope.
@@ -280,26 +305,50 @@ Fixpoint rows_close_sel (fl : list bool) (X Y : list vecQ) : bool :=
   | _, _, _ => false
   end.
 
-(* one molecule: before, targets (None = the default selection), witnesses (one per target, in order),
-   and what the implementation left behind; raised = the call raised *)
+(* one call: the molecule before, targets (None = the default selection), witnesses (one per target, in order),
+   and what the implementation left behind *)
+Definition check_call (m : hmol Q) (targets : option (list nat)) (ws : list (wit Q))
+                      (atoms' : list hatom) (bonds' : list hbond) (xyz' : list vecQ) : bool :=
+  let xyz := hm_xyz m in
+  let ts := targets_of targets m in
+  Nat.eqb (length ws) (length ts) && wits_valid m ts ws &&
+  match hadd QOps m ts ws with
+  | None => false
+  | Some m' =>
+      all2 hatom_eqb (hm_atoms m') atoms' && all2 hbond_eqb (hm_bonds m') bonds'
+      (* old rows are bit-identical, new rows agree within eps_pos *)
+      && all2 veqQ xyz (firstn (length xyz) xyz')
+      && rows_close_sel (cmp_flags m ts ws) (skipn (length xyz) (hm_xyz m')) (skipn (length xyz) xyz')
+  end.
+
+(* a session observed on ONE live object: calls (with what the implementation left behind) and the molecule as the
+   harness's in-place edits left it.  Every call is compared with `hadd` on the molecule as it is at that moment:
+   the one the previous call left behind (as observed: new rows agree with the model only within eps_pos, so the
+   model is re-synchronised on the observation) or the one the edits left. *)
+Inductive sobs :=
+| OCall (targets : option (list nat)) (ws : list (wit Q)) (atoms' : list hatom) (bonds' : list hbond) (xyz' : list vecQ)
+| OEdit (atoms : list hatom) (bonds : list hbond) (xyz : list vecQ).
+
+Fixpoint check_steps (m : hmol Q) (steps : list sobs) : bool :=
+  match steps with
+  | [] => true
+  | OEdit a b x :: r => check_steps (mkHM a b x) r
+  | OCall t ws a' b' x' :: r => check_call m t ws a' b' x' && check_steps (mkHM a' b' x') r
+  end.
+
+(* the session the observations describe, as a model session (the witnesses are the observed ones) *)
+Definition steps_of (steps : list sobs) : list (sstep Q) :=
+  map (fun s => match s with OCall t ws _ _ _ => SCall t ws | OEdit a b x => SEdit (mkHM a b x) end) steps.
+
 Inductive case :=
 | CMol (atoms : list hatom) (bonds : list hbond) (xyz : list vecQ) (targets : option (list nat)) (ws : list (wit Q))
-       (atoms' : list hatom) (bonds' : list hbond) (xyz' : list vecQ).
+       (atoms' : list hatom) (bonds' : list hbond) (xyz' : list vecQ)
+| CSess (atoms : list hatom) (bonds : list hbond) (xyz : list vecQ) (steps : list sobs).
 
 Definition check (c : case) : bool :=
   match c with
-  | CMol atoms bonds xyz targets ws atoms' bonds' xyz' =>
-      let m := mkHM atoms bonds xyz in
-      let ts := match targets with Some l => l | None => default_targets atoms end in
-      Nat.eqb (length ws) (length ts) && wits_valid m ts ws &&
-      match hadd QOps m ts ws with
-      | None => false
-      | Some m' =>
-          all2 hatom_eqb (hm_atoms m') atoms' && all2 hbond_eqb (hm_bonds m') bonds'
-          (* old rows are bit-identical, new rows agree within eps_pos *)
-          && all2 veqQ xyz (firstn (length xyz) xyz')
-          && rows_close_sel (cmp_flags m ts ws) (skipn (length xyz) (hm_xyz m')) (skipn (length xyz) xyz')
-      end
+  | CMol atoms bonds xyz targets ws atoms' bonds' xyz' => check_call (mkHM atoms bonds xyz) targets ws atoms' bonds' xyz'
+  | CSess atoms bonds xyz steps => check_steps (mkHM atoms bonds xyz) steps
   end.
 
 (* diagnostics: the per-target counts the model computes *)
@@ -308,6 +357,7 @@ Definition model_counts (c : case) : list (nat * option Z) :=
   | CMol atoms bonds xyz targets ws _ _ _ =>
       let ts := match targets with Some l => l | None => default_targets atoms end in
       map (fun t => (t, match nth_error atoms t with Some a => count_of bonds t a | None => None end)) ts
+  | CSess _ _ _ _ => []
   end.
 
 (* ------------------------------------------------------------------ what the theorems need from TETRAHEDRON (decided on the Gen table) *)
